@@ -139,12 +139,40 @@ PROVED = [
     'WITHOUT the hypothesis "f monic": for every f of degree deg >= 1 (2 deg < 2^64) with non-zero leading coefficient whose starting order has a '
     'non-zero discriminant of fewer than 2^64 bits, in both build profiles find_integral_basis returns (no panic, enough fuel) an order that is '
     'p-maximal at every prime and is the maximal order (index 1 or -1 in every over-order, which has the same lattice)',
+    # ---- eighth wave
+    '[P] maximal_order_contains / maximal_order_unique / driver_largest_order (f canonical of degree n >= 1, not necessarily irreducible): an '
+    'order O1 of Q[x]/(f) without larger order (no_larger_order: every over-order lies in its lattice -- the conclusion of '
+    'find_integral_basis_maximal_all) contains EVERY order O2 (weak_order: any n x n rational matrix, no normal form required, whose lattice '
+    'contains 1 and on which get_mult_table returns), not only those that contain O1; two orders without larger order have the same lattice; '
+    'under the driver hypotheses the order returned by find_integral_basis contains every order: it is the largest order. Proof: the product '
+    'module O1 O2 contains O1 and O2, is closed under multiplication by commutativity, is finitely generated of full rank, so has a basis '
+    '(HNF::new of its generators after clearing denominators: C02 hnf_new_total / hnf_new_correct, full rank as in Round2W3Det) on which '
+    'get_mult_table returns (C14 get_mult_table_iff): it is an over-order of O1; maximal_order_same_stored / maximal_order_stored_equal: hence '
+    '(C15 order_canonical, HNF canonicity) Order::from_basis has the same outcome on any two orders without larger order, and two such orders '
+    'that are fixed points of from_basis are equal as lists of rationals',
+    '[P] disc_invariant_shift / disc_invariant_scale / disc_invariant_neg / disc_invariant_recip and ib_find_disc_shift / _scale / _recip '
+    '(independence of the generator for theta + k, c theta with c a non-zero integer, -theta, 1/theta): for f of degree n >= 1 (2n < 2^64) and '
+    'g = poly_shift f k = f(x + k), g = poly_scale f c = c^n f(x/c) (c = -1: (-1)^n f(-x)), g = rev f = x^n f(1/x) (f(0) != 0), both f and g under the '
+    'hypotheses of find_integral_basis_maximal_all (non-zero discriminant of the starting order with fewer than 2^64 bits): the orders returned '
+    'by find_integral_basis for f and for g have the same order_disc, and the discriminants returned by the entry point ib_find are equal. '
+    'Proof: x |-> h (h = x - k, c x, x^-1 mod f) induces an algebra isomorphism Q[x]/(g) -> Q[x]/(f) with an invertible matrix Phi on '
+    'coordinates; it is multiplicative, so it maps the maximal order of g to an order without larger order of f, which has the lattice of the '
+    'driver result for f (maximal_order_unique); the regular representations are conjugate by Phi, so the trace forms of the power bases satisfy '
+    'P_g = Phi P_f Phi^T; both discriminants are det(B)^2 det(P) (C15 order_disc_trace_form, trZ_pform), and two bases of one lattice differ by an '
+    'integer matrix of determinant +-1. poly_shift_eval pins the meaning of poly_shift (evaluation at x = evaluation of f at x + k); '
+    'poly_shift_length / poly_scale_length / rev_canon_length: the transformed lists are canonical of the same length',
 ]
 NOT_PROVED = [
     'that the discriminant of the returned order equals the field discriminant as defined through embeddings / that the maximal order is the '
     'integral closure of Z in Q[x]/(f) (no notion of integral element in the development; maximality is stated as: no strictly larger '
-    'lattice closed under multiplication, which characterises the ring of integers when f is irreducible)',
-    'independence of the generator (theta + k, -theta, c*theta, 1/theta give the same discriminant)',
+    'lattice closed under multiplication, and -- eighth wave -- the returned order contains every order, i.e. every full-rank lattice containing 1 '
+    'and closed under multiplication; this characterises the ring of integers when f is irreducible because every integral element lies in '
+    'some order, but that last step is not formalised)',
+    'independence of the generator beyond the four changes named in the property text: theta + k, -theta, c*theta, 1/theta are proved '
+    '(disc_invariant_shift / _neg / _scale / _recip; compositions follow by chaining, each step needing the driver hypotheses for both '
+    'polynomials); for an arbitrary second generator the statement is proved only in MathComp vocabulary (Refine/W8C06Main.v '
+    'disc_invariant_driver_unit: any polynomial h with g(h) = 0 mod f whose substitution matrix is invertible) and not exported to Props; that '
+    'the discriminant hypothesis (non-zero, fewer than 2^64 bits) for g follows from the one for f is NOT proved: it is a hypothesis for both',
     'inside one_step only the assertions of the table construction (expect on solve_linear_system, is_integer) are reachable, and only '
     'on inputs that are not orders (w3_not_a_ring); on orders the step is proved panic-free (order_step_returns)',
     'inputs whose discriminant is 0 (f not squarefree: trial_factorize panics on its assert) or has 2^64 bits or more (the u64 exponents of '
@@ -157,7 +185,9 @@ ASSUMPTIONS = ['num::integer::lcm on BigInt taken as Z.lcm (non-negative)',
 CLAIM = dict(
     technique='Coq proof about the Gallina model of find_integral_basis / round2::one_step + extracted-model-vs-implementation correspondence '
               '+ independent maximality oracle on every explored input',
-    text='Proved for all inputs about the model (coq/Props/C06.v, 70 theorems, closed under the global context). Fifth wave: Dedekind\'s lemma -- the '
+    text='Proved for all inputs about the model (coq/Props/C06.v, 87 theorems, closed under the global context). Eighth wave: the order returned by the driver '
+         'contains every order of Q[x]/(f) and is the only order without larger order (as a lattice), and the discriminant the code reports is the same for f and for the '
+         'minimal polynomials of theta + k, -theta, c*theta (c a non-zero integer) and 1/theta (each pair under the driver hypotheses). Fifth wave: Dedekind\'s lemma -- the '
          'starting order Z[theta] cap Z[1/theta] of EVERY f of degree >= 1 with non-zero leading coefficient is computed and is an order (closed under '
          'multiplication: get_mult_table returns on it), so all driver theorems hold for monic and non-monic f alike, without any flag. Fourth wave: the Pohst-Zassenhaus '
          'theorem for the model (one_step on an order at a prime returns howmany = 0 iff the order is p-maximal), no u64 underflow of the exponent '
@@ -175,7 +205,7 @@ CLAIM = dict(
          'statement (tables mod p and p^2 with truncating %, Frobenius power, I_p and U_p through HNF::new(HNF::kernel(.)) with row '
          'truncation, assertions, u64 exponent bookkeeping); it is tied to /repo by running the extracted model and impl_svc (library, '
          'one_step through the access wrapper, and the CLI) on the same inputs.',
-    note='NOT proved: independence of the generator, identification of the maximal order with the integral closure; these clauses are checked on every explored input by an independent oracle (ring axioms, '
+    note='NOT proved: identification of the maximal order with the integral closure (only: it contains every order); independence of the generator is proved for the four changes of generator of the property text, not for an arbitrary second generator; these clauses are checked on every explored input by an independent oracle (ring axioms, '
          'discriminant by formula / trace form / closed forms of quadratic, pure cubic, cyclotomic, biquadratic fields, p-maximality by '
          'the Dedekind criterion and by an own multiplier-ring test, equal discriminants across changes of generator).',
     ref='DESIGN.md section 4, C06')
